@@ -112,6 +112,7 @@ func scope(p *prog.Program, sc string, w *strings.Builder, ind string, o Options
 				}
 				fmt.Fprintf(w, "%s    </olive:results>\n", ind)
 			}
+			fmt.Fprintf(w, "%s    <olive:dataOutput name=\"obj\" targetRef=\"obj\"/>\n", ind)
 			fmt.Fprintf(w, "%s  </bpmn:extensionElements>\n", ind)
 		}
 		for _, f := range n.In {
